@@ -24,6 +24,7 @@ Judge == IF "JUDGE" \in DOMAIN IOEnv THEN IOEnv.JUDGE ELSE "ALL"
 J01 == Judge \in {"C01", "ALL"}
 J13 == Judge \in {"C13", "ALL"}
 J14 == Judge \in {"C14", "ALL"}
+J11 == Judge \in {"C11", "ALL"}
 
 E == Trace[l]
 IsEvent(e) == l <= Len(Trace) /\ Trace[l].ev = e /\ l' = l + 1
@@ -41,6 +42,8 @@ T_PacketSize == /\ IsEvent("PacketSize") /\ phase = "idle" /\ queued = 0
                 \* inside the range a server may negotiate the size in force is the announced one; outside
                 \* of it (the tiny sizes of the model's scope) it is what the connection reports
                 /\ ps' = IF E.ps >= 256 /\ E.ps <= 65535 THEN E.ps ELSE E.applied
+                \* C11: every environment change is applied - on whatever channel it arrives
+                /\ (J11 /\ E.ps >= 256 /\ E.ps <= 65535 => E.applied = E.ps)
                 /\ UNCHANGED <<chan, nr, queued, wired, closed, phase, typ, judged, cancelled, failing, wopen>>
 T_SetType == /\ IsEvent("SetType") /\ phase = "idle"
              /\ UNCHANGED <<ps, chan, nr, queued, wired, closed, phase, typ, judged, cancelled, failing, wopen>>
